@@ -89,28 +89,75 @@ def engExp1 (st : ExpState) (a : List String) : ExpState × String :=
 /-- insertion sort of the recorded templates by id (the harness reports a refresh sorted by id) -/
 def sortTpls (l : List (Nat × List IE)) : List (Nat × List IE) := l.foldl (fun acc x => Life.insertBy id x acc) []
 
+/-- `exp failnext <kind>`: err / refused = the Write fails (whatever the error is), short<k> = the Write
+    returns (k, nil) having written k bytes -/
+def parseOutcome (tok : String) : Option WriteOutcome :=
+  if tok == "err" || tok == "refused" then some .fail
+  else if tok.startsWith "short" then ((tok.drop 5).toNat?).map .short
+  else none
+
+/-- the in-memory connection writes at most the whole slice: `short k` with k ≥ the message length is a
+    complete write -/
+def effOutcome (st : ExpState) (s : SetB) (w : WriteOutcome) : WriteOutcome :=
+  match w, (st.sendBuilt 0 s).2 with
+  | .short k, .ok n _ => .short (min k n)
+  | w, _ => w
+
+/-- one SendSet of the IPFIX path under a pending outcome: state, result, bytes that reached the
+    connection, whether the outcome was used up (a Write was made) -/
+def sendPending (st : ExpState) (s : SetB) (w : WriteOutcome) : ExpState × SendResult × Bytes × Bool :=
+  let w' := effOutcome st s w
+  let r := st.sendBuiltW 0 s w'
+  (r.1, r.2, st.wroteW 0 s w', st.reachesWrite 0 s)
+
 /-- engine "exp"; the second state component is templatesMap[id].elements (Model/Lifecycle.lean) -/
-def engExp (stp : ExpState × List (Nat × List IE)) (a : List String) : (ExpState × List (Nat × List IE)) × String :=
-  let st := stp.1
-  let lift (r : ExpState × String) : (ExpState × List (Nat × List IE)) × String := ((r.1, stp.2), r.2)
+def engExp (stp : ExpDrv × List (Nat × List IE)) (a : List String) : (ExpDrv × List (Nat × List IE)) × String :=
+  let drv := stp.1
+  let st := drv.st
+  let lift (r : ExpState × String) : (ExpDrv × List (Nat × List IE)) × String := (({ drv with st := r.1 }, stp.2), r.2)
   match a with
   | ["new", dom] =>
     match dom.toNat? with
-    | some d => (({ dom := d }, []), "ok")
+    | some d => (({ st := { dom := d } }, []), "ok")
+    | none => (stp, "bad-op")
+  | ["new", dom, "json"] =>
+    match dom.toNat? with
+    | some d => (({ st := { dom := d }, json := true }, []), "ok")
+    | none => (stp, "bad-op")
+  | ["failnext", kind] =>
+    match parseOutcome kind with
+    | some w => (({ drv with failNext := some w }, stp.2), "ok")
     | none => (stp, "bad-op")
   | ["refresh"] =>
     -- sendRefreshedTemplates: one MakeTemplateSet + SendSet per recorded template; here in id order
     match Life.buildAll (sortTpls stp.2) with
     | none => (stp, "err -")
     | some sets =>
-      let step := fun (acc : ExpState × List Bytes × Bool) (s : SetB) =>
-        if acc.2.2 then acc
-        else match acc.1.sendBuilt 0 s with
-          | (st', .ok _ w) => (st', acc.2.1 ++ [w], false)
-          | (st', .err) => (st', acc.2.1, true)
-      let r := sets.foldl step (st, [], false)
-      let w := if r.2.1.isEmpty then "-" else "+".intercalate (r.2.1.map hexOrDash)
-      if r.2.2 then ((r.1, stp.2), s!"err {w}") else ((r.1, stp.2), s!"ok {r.2.1.length} {w} timeok")
+      if drv.json then (stp, "ok 0 - timeok")     -- a template set writes nothing in JSON mode (and is recorded already)
+      else
+      match drv.failNext with
+      | none =>
+        let step := fun (acc : ExpState × List Bytes × Bool) (s : SetB) =>
+          if acc.2.2 then acc
+          else match acc.1.sendBuilt 0 s with
+            | (st', .ok _ w) => (st', acc.2.1 ++ [w], false)
+            | (st', .err) => (st', acc.2.1, true)
+        let r := sets.foldl step (st, [], false)
+        let w := if r.2.1.isEmpty then "-" else "+".intercalate (r.2.1.map hexOrDash)
+        if r.2.2 then (({ drv with st := r.1 }, stp.2), s!"err {w}") else (({ drv with st := r.1 }, stp.2), s!"ok {r.2.1.length} {w} timeok")
+      | some w0 =>
+        -- the pending outcome goes to the first Write of the pass; a failing SendSet ends the pass
+        let step := fun (acc : ExpState × List Bytes × Bool × Option WriteOutcome) (s : SetB) =>
+          if acc.2.2.1 then acc
+          else
+            let (st', r, wrote, used) := sendPending acc.1 s (acc.2.2.2.getD .ok)
+            let ws := if wrote.isEmpty then acc.2.1 else acc.2.1 ++ [wrote]
+            (st', ws, !(match r with | .ok _ _ => true | .err => false), if used then none else acc.2.2.2)
+        let r := sets.foldl step (st, [], false, some w0)
+        let w := if r.2.1.isEmpty then "-" else "+".intercalate (r.2.1.map hexOrDash)
+        let inj := if r.2.2.2.isNone then " injected" else ""
+        let drv' : ExpDrv := { drv with st := r.1, failNext := r.2.2.2 }
+        if r.2.2.1 then ((drv', stp.2), s!"err {w}{inj}") else ((drv', stp.2), s!"ok {r.2.1.length} {w} timeok{inj}")
   | ["send", path, t, setid, recs] =>
     match parseSetType t, setid.toNat?, parseRecsDesc recs with
     | some ty, some sid, some rs =>
@@ -118,10 +165,30 @@ def engExp (stp : ExpState × List (Nat × List IE)) (a : List String) : (ExpSta
       match d.build (path == "2" || path == "2r") with
       | none => if ty = .data then (stp, "err -") else (stp, "builderr")
       | some s =>
-        let (st', r) := st.sendBuilt 0 s
-        match r with
-        | .ok n w => ((st', if s.ty = .template then Life.recordTemplates stp.2 s else stp.2), s!"ok {n} {hexOrDash w} timeok")
-        | .err => ((st', stp.2), "err -")
+        if drv.json then
+          -- JSON mode: `okj <writes>` / `err -` (no write) / `errj <writes>`; the text is not modelled
+          let used := drv.failNext.isSome && st.writesJ s > 0
+          let (st', r) := st.sendBuiltJW s (drv.failNext.getD .ok)
+          let inj := if used then " injected" else ""
+          let drv' : ExpDrv := { drv with st := st', failNext := if used then none else drv.failNext }
+          match r with
+          | .ok n => ((drv', if s.ty = .template then Life.recordTemplates stp.2 s else stp.2), s!"okj {n}{inj}")
+          | .err 0 => ((drv', stp.2), s!"err -{inj}")
+          | .err n => ((drv', stp.2), s!"errj {n}{inj}")
+        else
+        match drv.failNext with
+        | none =>
+          let (st', r) := st.sendBuilt 0 s
+          match r with
+          | .ok n w => (({ drv with st := st' }, if s.ty = .template then Life.recordTemplates stp.2 s else stp.2), s!"ok {n} {hexOrDash w} timeok")
+          | .err => (({ drv with st := st' }, stp.2), "err -")
+        | some w0 =>
+          let (st', r, wrote, used) := sendPending st s w0
+          let inj := if used then " injected" else ""
+          let drv' : ExpDrv := { drv with st := st', failNext := if used then none else drv.failNext }
+          match r with
+          | .ok n w => ((drv', if s.ty = .template then Life.recordTemplates stp.2 s else stp.2), s!"ok {n} {hexOrDash w} timeok{inj}")
+          | .err => ((drv', stp.2), s!"err {hexOrDash wrote}{inj}")
     | _, _, _ => (stp, "bad-op")
   | _ => lift (engExp1 st a)
 
@@ -344,13 +411,23 @@ def chkE2E (st : E2ESpecState) (a : List String) : E2ESpecState × String :=
 def parseWrites (tok : String) : Option (List Bytes) :=
   if tok == "-" then some [] else (tok.splitOn "+").mapM fromHex
 
-/-- `chk exp <op> | <impl obs>`: Spec.Exp.sendVerdict on the implementation's observation -/
+/-- `chk exp <op> | <impl obs>`: Spec.Exp.sendVerdict on the implementation's observation; a send whose
+    observation ends in `injected` (the connection gave the `failnext` outcome to a Write of that call) by
+    Spec.Exp.sendVerdictW, a send of a JSON session (`exp new <dom> json`) by Spec.Exp.sendVerdictJ -/
 def chkExp (t : ExpSpec.Tracker) (a : List String) : ExpSpec.Tracker × String :=
   let (op, obs) := splitBar a
   match op with
   | ["new", dom] =>
     match dom.toNat? with
     | some d => ({ dom := d }, "holds")
+    | none => (t, "bad-op")
+  | ["new", dom, "json"] =>
+    match dom.toNat? with
+    | some d => ({ dom := d, json := true }, "holds")
+    | none => (t, "bad-op")
+  | ["failnext", kind] =>
+    match parseOutcome kind with
+    | some w => ({ t with pending := some w }, if obs == ["ok"] then "holds" else "fails obs")
     | none => (t, "bad-op")
   | ["seq", n] =>
     match n.toNat? with
@@ -359,6 +436,11 @@ def chkExp (t : ExpSpec.Tracker) (a : List String) : ExpSpec.Tracker × String :
   | ["getseq"] => (t, "na")
   | ["tids"] => (t, "na")
   | ["refresh"] =>
+    let injected := obs.getLast? == some "injected"
+    if t.json || injected then
+      -- JSON mode: a refresh writes nothing; a pass whose Write was made to fail is not judged
+      (if injected then { t with pending := none } else t, "na")
+    else
     match obs with
     | ["ok", _n, w, tk] =>
       match parseWrites w with
@@ -369,6 +451,18 @@ def chkExp (t : ExpSpec.Tracker) (a : List String) : ExpSpec.Tracker × String :
   | ["send", _path, ty, setid, recs] =>
     match parseSetType ty, setid.toNat?, parseRecsDesc recs with
     | some ty, some sid, some rs =>
+      let injected := obs.getLast? == some "injected"
+      let obs := if injected then obs.dropLast else obs
+      if t.json then
+        let o : ExpSpec.ObsJ :=
+          match obs with
+          | ["okj", n] => match n.toNat? with | some n => .ok n | none => .other
+          | ["errj", n] => match n.toNat? with | some n => .err n | none => .other
+          | ["err", "-"] => .err 0
+          | ["builderr"] => .builderr
+          | _ => .other
+        ExpSpec.sendVerdictJ t { ty := ty, setId := sid, recs := rs } o injected
+      else
       let o : ExpSpec.Obs :=
         match obs with
         | ["ok", n, w, tk] =>
@@ -381,7 +475,7 @@ def chkExp (t : ExpSpec.Tracker) (a : List String) : ExpSpec.Tracker × String :
           | none => .other
         | ["builderr"] => .builderr
         | _ => .other
-      ExpSpec.sendVerdict t { ty := ty, setId := sid, recs := rs } o
+      ExpSpec.sendVerdictW t { ty := ty, setId := sid, recs := rs } o injected
     | _, _, _ => (t, "bad-op")
   | _ => (t, "na")
 
